@@ -97,7 +97,7 @@ def xStrings (st : St) : List (Nat × List Byte) :=
     aiffParse (a.length + 1) a ++ aiffParse (b.length + 1) b
   else
     -- caf_close pads an odd data end with a byte the chunk walk of caf_read_header does not expect: the trailing info is lost
-    readCafInfo (writeCafInfo startE) ++ (if h.audio.length % 2 = 1 then [] else readCafInfo (writeCafInfo endE))
+    readCafInfo (writeCafInfo h.strings.used startE) ++ (if h.audio.length % 2 = 1 then [] else readCafInfo (writeCafInfo h.strings.used endE))
 
 def xMetaLine (st : St) : String :=
   let h := st.h
